@@ -730,7 +730,11 @@ fn run_api_family(ctx: &Ctx, report: &mut Report) {
             }
         });
     }
-    let results: anyhow::Result<Vec<(u64, Vec<ApiEv>, Bad)>> = block_on(async {
+    let results: anyhow::Result<Vec<(u64, Vec<ApiEv>, Bad)>> = {
+        // (its own runtime: all histories of a worker run inside this one future, which may take
+        // longer than the hang detector of `sut::block_on` allows on a loaded machine)
+        let rt = super::live::runtime();
+        rt.block_on(async {
         let node = api_node().await?;
         let mut out = vec![];
         for (ord, hist) in cases {
@@ -739,7 +743,8 @@ fn run_api_family(ctx: &Ctx, report: &mut Report) {
         }
         super::apifam::shutdown(&node).await;
         Ok(out)
-    });
+        })
+    };
     match results {
         Err(e) => report.machinery_error(format!("docs API family: cannot set up a node: {e:#}")),
         Ok(rs) => {
